@@ -250,7 +250,12 @@ fn main() {
                 0 => (0..n).map(|_| rng.below(256) as u8).collect(),
                 1 => (0..n).map(|_| *rng.pick(b"+-:$*_0123456789\r\n\r\n a\"\\\xff\xc3\xa9")).collect(),
                 _ => {
-                    let mut s = b"*3\r\n$3\r\nfoo\r\n:12\r\n*1\r\n+ok\r\n".to_vec();
+                    let mut s = if rng.chance(1, 2) { b"*3\r\n$3\r\nfoo\r\n:12\r\n*1\r\n+ok\r\n".to_vec() } else {
+                        // a frame whose length fields are drawn around the truth
+                        let l1 = *rng.pick(&["-2", "-1", "0", "2", "3", "4", "30", "99999"]);
+                        let l2 = *rng.pick(&["-2", "-1", "0", "1", "2", "3", "7", "4294967296"]);
+                        format!("*{}\r\n${}\r\nfoo\r\n*1\r\n$-1\r\n", l2, l1).into_bytes()
+                    };
                     for _ in 0..1 + rng.usize(3) {
                         let i = rng.usize(s.len());
                         match rng.usize(3) { 0 => s[i] = *rng.pick(b"-9$*\r\n\xff\""), 1 => { s.remove(i); } _ => s.insert(i, *rng.pick(b"-9$*\r\n1")) }
